@@ -173,7 +173,9 @@ func c17Gen(g *hx.Gen) {
 			g.Casef("na %s %d %d %s", cased, '-', 'n', hx.Hex([]byte(def)))
 		}
 	}
-	for _, pr := range [][2]string{{"acgt", "tgca"}, {"ACGT", "TGCA"}, {"acgtACGT", "tgcaTGCA"}, {"\x7f\x01", "\x01\x7f"}, {"a", "a"}, {"ab", "bc"}, {"abc", "bca"}, {"a", "b"}, {"\x7f", "\x7f"}, {"\u0080", "\u0080"}, {"a\u0080", "\u0080a"}, {"a\u0081", "\u0081a"}} {
+	for _, pr := range [][2]string{{"acgt", "tgca"}, {"ACGT", "TGCA"}, {"acgtACGT", "tgcaTGCA"}, {"\x7f\x01", "\x01\x7f"}, {"a", "a"}, {"ab", "bc"}, {"abc", "bca"}, {"a", "b"}, {"\x7f", "\x7f"}, {"\u0080", "\u0080"}, {"a\u0080", "\u0080a"}, {"a\u0081", "\u0081a"},
+		// NUL is a legal ASCII letter: a pairing with an undefined complement must not read as 0 = NUL
+		{"\x00", "t"}, {"\x00", "\x01"}, {"\x00\x01", "\x01\x00"}, {"a\x00", "\x00a"}, {"t", "\x00"}} {
 		s0, _ := strconv.Unquote(`"` + pr[0] + `"`)
 		c0, _ := strconv.Unquote(`"` + pr[1] + `"`)
 		g.Casef("np %s %s", hx.Hex([]byte(s0)), hx.Hex([]byte(c0)))
@@ -255,6 +257,12 @@ func randPairing(g *hx.Gen) (s, c []byte) {
 	perm := g.Perm(94)
 	for i := 0; i+1 < 2*n && i+1 < len(perm); i += 2 {
 		a, b := byte(33+perm[i]), byte(33+perm[i+1])
+		if g.Chance(0.05) {
+			a = byte(g.Intn(4)) // NUL and the lowest control letters
+		}
+		if g.Chance(0.05) {
+			b = byte(g.Intn(4))
+		}
 		if g.Chance(0.2) {
 			b = a // self-paired letter
 		}
